@@ -208,6 +208,8 @@ GENERIC_RULES = [
     R(r"\bstd::ptrdiff_t\b", "ptrdiff_t", None),
     R(r"\bstd::uint8_t\b", "uint8_t", None),
     R(r"\bsize_type\b", "size_t", None),
+    # functional casts T(e) of the floating-point aliases (before the aliases themselves are renamed)
+    R(r"\b(?:data_type|elev_t|grid_data_type)\(([^()]*)\)", r"((double) (\1))", None),
     R(r"\b(?:data_type|elev_t|grid_data_type)\b", "double", None),
     R(r"\bstd::max\(", "FSL_MAX(", None),
     R(r"\bstd::min\(", "FSL_MIN(", None),
